@@ -17,6 +17,11 @@
 (* double represents exactly (2^31, 2^32 + 65, 2^53, 1e30 ...) are carried *)
 (* symbolically as `big` numbers: a sign and the decimal digits; they have *)
 (* order, equality, printing and conversion behaviour but no arithmetic.   *)
+(* Non-zero numbers closer to zero than 1/100 (1e-16, 0.001 ...) are       *)
+(* carried symbolically too, as `tiny` numbers: a sign and the canonical   *)
+(* decimal text of the magnitude.  They are not zero (truthy, unequal to   *)
+(* 0), lie strictly between 0 and every finite n/64, round to 0 or +-1,    *)
+(* and any other arithmetic on them leaves the exact domain (Inexact).     *)
 (***************************************************************************)
 EXTENDS Integers, Sequences, FiniteSets, TLC
 
@@ -42,6 +47,8 @@ HugeText  == "1000000000000000000000000000000"              \* 1e30 as Rust prin
 Huge      == Big(1, HugeText)
 NHuge     == Big(-1, HugeText)
 Inexact   == NumC("inexact")
+Tiny(s, d) == [t |-> "num", c |-> "tiny", s |-> s, d |-> d]  \* s * d, d = "0.00.." canonical decimal text, 0 < d < 1/100
+TinyText  == "0.0000000000000001"                           \* 1e-16, below the machine epsilon
 IntV(k)    == Fin(k * Den)
 Str(s)    == [t |-> "str", s |-> s]
 AnyChar   == [t |-> "str1"]     \* some one-character string the model does not name
@@ -91,17 +98,18 @@ IsDigit(c) == DigitVal(c) < 10 /\ c \in {"0","1","2","3","4","5","6","7","8","9"
 
 -----------------------------------------------------------------------------
 (* numbers *)
-NKind(v) ==      \* "nan" | "inexact" | "inf" | "huge" | "zero" | "fin"
+NKind(v) ==      \* "nan" | "inexact" | "inf" | "huge" | "tiny" | "zero" | "fin"
   CASE v.c = "nan" -> "nan"
     [] v.c = "inexact" -> "inexact"
     [] v.c \in {"pinf", "ninf"} -> "inf"
     [] v.c = "big" -> "huge"
+    [] v.c = "tiny" -> "tiny"
     [] v.c = "nzero" -> "zero"
     [] v.c = "fin" -> IF v.n = 0 THEN "zero" ELSE "fin"
 
 NSign(v) ==      \* +1 | -1 ; meaningless for nan / inexact
   CASE v.c \in {"ninf", "nzero"} -> -1
-    [] v.c = "big" -> v.s
+    [] v.c \in {"big", "tiny"} -> v.s
     [] v.c = "fin" -> IF v.n < 0 THEN -1 ELSE 1
     [] OTHER -> 1
 
@@ -116,6 +124,7 @@ NumNeg(a) ==
     [] a.c = "pinf"  -> NInf
     [] a.c = "ninf"  -> PInf
     [] a.c = "big"   -> Big(-a.s, a.d)
+    [] a.c = "tiny"  -> Tiny(-a.s, a.d)
     [] OTHER -> a
 
 NumAdd(a, b) ==
@@ -131,6 +140,7 @@ NumAdd(a, b) ==
     [] ka = "zero" /\ kb = "zero" -> IF NSign(a) < 0 /\ NSign(b) < 0 THEN NZero ELSE Fin(0)
     [] ka = "zero" -> b
     [] kb = "zero" -> a
+    [] ka = "tiny" \/ kb = "tiny" -> Inexact
     [] OTHER -> MkFin(a.n + b.n)        \* x + (-x) = +0 under round-to-nearest
 
 NumSub(a, b) == NumAdd(a, NumNeg(b))     \* IEEE: x - y = x + (-y)
@@ -145,6 +155,9 @@ NumMul(a, b) ==
     [] ka = "huge" /\ kb = "fin" /\ Abs(b.n) = Den -> WithSign(a, s)
     [] kb = "huge" /\ ka = "fin" /\ Abs(a.n) = Den -> WithSign(b, s)
     [] ka = "huge" \/ kb = "huge" -> Inexact
+    [] ka = "tiny" /\ kb = "fin" /\ Abs(b.n) = Den -> Tiny(s, a.d)
+    [] kb = "tiny" /\ ka = "fin" /\ Abs(a.n) = Den -> Tiny(s, b.d)
+    [] ka = "tiny" \/ kb = "tiny" -> Inexact
     [] OTHER ->
         LET x == Abs(a.n) y == Abs(b.n) IN
         IF x > MaxInt \div y THEN Inexact
@@ -162,6 +175,8 @@ NumDiv(a, b) ==
     [] kb = "zero" -> Inf(s)
     [] ka = "zero" -> Zero(s)
     [] ka = "huge" \/ kb = "huge" -> Inexact
+    [] ka = "tiny" /\ kb = "fin" /\ Abs(b.n) = Den -> Tiny(s, a.d)
+    [] ka = "tiny" \/ kb = "tiny" -> Inexact
     [] OTHER ->
         LET x == Abs(a.n) y == Abs(b.n) IN
         IF x > MaxInt \div Den THEN Inexact
@@ -171,7 +186,10 @@ NumDiv(a, b) ==
 (* the three roundings of `turn`: ceil, floor, round-half-away-from-zero.  *)
 (* A zero result keeps the sign of the operand, as in IEEE.                *)
 NumRound(a, dir) ==      \* dir \in {"up", "down", "nearest"}
-  IF a.c # "fin" \/ a.n % Den = 0 THEN a
+  IF a.c = "tiny" THEN (CASE dir = "nearest" -> Zero(a.s)
+                          [] dir = "up"   -> IF a.s > 0 THEN IntV(1) ELSE NZero
+                          [] dir = "down" -> IF a.s > 0 THEN Fin(0) ELSE IntV(-1))
+  ELSE IF a.c # "fin" \/ a.n % Den = 0 THEN a
   ELSE LET s == NSign(a)
            x == Abs(a.n)
            lo == (x \div Den) * Den          \* magnitude rounded toward zero
@@ -189,7 +207,7 @@ NumEq(a, b) ==      \* "T" | "F" | "U"
     [] ka = "zero" /\ kb = "zero" -> "T"
     [] ka # kb -> "F"
     [] ka = "fin" -> IF a.n = b.n THEN "T" ELSE "F"
-    [] ka = "huge" -> IF a.s = b.s /\ a.d = b.d THEN "T" ELSE "F"
+    [] ka \in {"huge", "tiny"} -> IF a.s = b.s /\ a.d = b.d THEN "T" ELSE "F"
     [] OTHER -> IF a.c = b.c THEN "T" ELSE "F"
 
 Rank(v) ==      \* position on the extended real line, finite values in the middle band
@@ -206,9 +224,13 @@ NumCmp(a, b) ==     \* "lt" | "eq" | "gt" | "none" | "unk"
                   ELSE StrCmp(a.d, b.d)
          IN IF a.s > 0 THEN m ELSE (CASE m = "lt" -> "gt" [] m = "gt" -> "lt" [] OTHER -> "eq")
     [] Rank(a) # 0 -> "eq"
-    [] OTHER -> LET x == IF a.c = "fin" THEN a.n ELSE 0
-                    y == IF b.c = "fin" THEN b.n ELSE 0
-                IN IF x < y THEN "lt" ELSE IF x > y THEN "gt" ELSE "eq"
+    [] OTHER -> \* the middle band, on a doubled scale that leaves room for the tiny numbers next to zero
+                LET key(v) == CASE v.c = "fin" -> 2 * v.n [] v.c = "tiny" -> v.s [] OTHER -> 0
+                    x == key(a) y == key(b)
+                IN IF x < y THEN "lt" ELSE IF x > y THEN "gt"
+                   ELSE IF ka = "tiny" THEN (LET m == StrCmp(a.d, b.d) IN      \* canonical "0.ddd" texts order as their values
+                                             IF a.s > 0 THEN m ELSE (CASE m = "lt" -> "gt" [] m = "gt" -> "lt" [] OTHER -> "eq"))
+                   ELSE "eq"
 
 NumTruthy(a) ==     \* "T" | "F" | "U"  (n != 0.0 : NaN is truthy)
   CASE NKind(a) = "zero" -> "F" [] NKind(a) = "inexact" -> "U" [] OTHER -> "T"
@@ -228,7 +250,7 @@ NumToStr(a) ==
     [] a.c = "pinf" -> "inf"
     [] a.c = "ninf" -> "-inf"
     [] a.c = "nzero" -> "-0"
-    [] a.c = "big" -> (IF a.s < 0 THEN "-" ELSE "") \o a.d
+    [] a.c \in {"big", "tiny"} -> (IF a.s < 0 THEN "-" ELSE "") \o a.d
     [] a.c = "inexact" -> "?"
     [] a.c = "fin" ->
         LET x == Abs(a.n)
@@ -245,6 +267,19 @@ IndexOf(a) ==       \* [i, def]
     [] a.c = "big" -> IF a.s > 0 THEN [i |-> -1, def |-> TRUE] ELSE [i |-> 0, def |-> FALSE]
     [] a.c = "inexact" -> [i |-> 0, def |-> FALSE]
     [] OTHER -> [i |-> 0, def |-> FALSE]          \* -0, NaN, -inf -> 0
+
+(* The number a poetic literal denotes, from its digits (Poetic.tla): sum of digit * 10^place in double arithmetic.  For an  *)
+(* integer of at most 15 significant digits every term and every partial sum is an integer below 2^53, hence exact whatever   *)
+(* the order of summation; fractions and longer numerals are left undetermined.                                               *)
+PoeticNum(d) ==        \* d = [ip |-> digits before the point, fp |-> digits after it]
+  LET RECURSIVE Strip(_) Strip(q) == IF q # <<>> /\ Head(q) = 0 THEN Strip(Tail(q)) ELSE q
+      RECURSIVE Txt(_) Txt(q) == IF q = <<>> THEN "" ELSE CharAt("0123456789", Head(q) + 1) \o Txt(Tail(q))
+      RECURSIVE Nat0(_, _) Nat0(q, acc) == IF q = <<>> THEN acc ELSE Nat0(Tail(q), acc * 10 + Head(q))
+      AllZero(q) == \A i \in 1..Len(q) : q[i] = 0
+      ip == Strip(d.ip)
+  IN IF ~AllZero(d.fp) \/ Len(ip) > 15 THEN Inexact
+     ELSE IF Len(ip) <= 8 /\ Nat0(ip, 0) <= MaxN \div Den THEN IntV(Nat0(ip, 0))
+     ELSE Big(1, Txt(ip))
 
 -----------------------------------------------------------------------------
 (* parsing numbers: Rust's  str::parse::<f64>  (no surrounding blanks, an  *)
@@ -286,8 +321,15 @@ ParseNum0(s) ==     \* a number value | None | Unk ; no exponent
         LET iv == DigitsVal(ip, 0)
             fv == DigitsVal(fp, 0)
             k  == Len(fp)
-        IN IF iv < 0 \/ fv < 0 \/ k > 6 \/ iv > MaxN \div Den THEN Inexact
-           ELSE IF (fv * Den) % Pow10(k) # 0 THEN Inexact
+            \* a non-zero fraction below 1/100 with at most 15 significant digits is printed back digit for digit
+            lead == LET RECURSIVE Z(_) Z(i) == IF i <= Len(fp) /\ CharAt(fp, i) = "0" THEN Z(i + 1) ELSE i - 1 IN Z(1)
+            tiny == iv = 0 /\ fp # "" /\ lead >= 2 /\ Len(fp) - lead <= 15 /\ Len(fp) <= 40
+            orTiny == IF tiny THEN Tiny(IF neg THEN -1 ELSE 1, "0." \o fp) ELSE Inexact
+            \* an integer numeral of at most 15 significant digits beyond the fixed-point band is a double exactly
+            ipS == LET RECURSIVE Z(_) Z(t) == IF Len(t) > 1 /\ CharAt(t, 1) = "0" THEN Z(SubSeq(t, 2, Len(t))) ELSE t IN Z(ip)
+        IN IF iv < 0 \/ iv > MaxN \div Den THEN (IF fp = "" /\ Len(ipS) <= 15 THEN Big(IF neg THEN -1 ELSE 1, ipS) ELSE Inexact)
+           ELSE IF fv < 0 \/ k > 6 THEN orTiny
+           ELSE IF (fv * Den) % Pow10(k) # 0 THEN orTiny
            ELSE LET n == iv * Den + (fv * Den) \div Pow10(k)
                 IN IF n = 0 THEN Zero(IF neg THEN -1 ELSE 1)
                    ELSE MkFin(IF neg THEN -n ELSE n)
@@ -478,6 +520,7 @@ Times(a, b) ==
                 [] NKind(k) = "inexact" -> Unk
                 [] NKind(k) = "zero" -> Str("")            \* also -0 : -0.0 >= 0.0
                 [] NSign(k) < 0 -> Myst
+                [] NKind(k) = "tiny" -> Str("")              \* truncated to zero repetitions
                 [] NKind(k) \in {"inf", "huge"} -> Blowup
                 [] OTHER -> IF k.n \div Den > MaxRepeat THEN Blowup ELSE Str(Repeat(p[1].s, k.n \div Den))
          [] OTHER -> Myst
